@@ -160,6 +160,20 @@ def check_case(ctx, out, desc, origin='random'):
     out.count('energy_checked')
     out.sample(inp)
 
+# a real voltage source (internal resistance, w = 0) declared with reversed polarity (phase π) and in quadrature
+SOURCE_CORPUS = [
+    dict(ground='0', ground_pos=5, comps=[
+        dict(kind='V', id='Vs', n1='1', n2='0', val=1.0, src=dict(type='ac', w=0.0, phi=phi, Ri=4.0)),
+        dict(kind='R', id='R1', n1='1', n2='2', val=1.0), dict(kind='C', id='C1', n1='2', n2='0', val=0.5),
+        dict(kind='L', id='L1', n1='2', n2='3', val=0.25), dict(kind='R', id='R2', n1='3', n2='0', val=0.125)])
+    for phi in (3.141592653589793, 2.0943951023931953, -1.5707963267948966)
+] + [
+    dict(ground='0', ground_pos=0, comps=[
+        dict(kind='I', id='Is', n1='0', n2='1', val=2.0, src=dict(type='ac', w=0.0, phi=3.141592653589793, Gi=0.5)),
+        dict(kind='C', id='C1', n1='1', n2='0', val=0.5), dict(kind='R', id='R1', n1='1', n2='2', val=2.0),
+        dict(kind='L', id='L1', n1='2', n2='0', val=1.0)]),
+]
+
 def run(ctx, out):
     out.rule = ('RLC + ideal-source circuits with strictly positive dyadic R, C, L (generator of C10); non-trivial when the circuit is '
                 'non-degenerate (decided exactly); distinct by (node count, kind multiset, names-interleave, inductor-order)')
@@ -168,6 +182,8 @@ def run(ctx, out):
             check_case(ctx, out, desc, 'corpus')
     for desc in c10.SI_CORPUS:
         check_case(ctx, out, desc, 'si_corpus')
+    for desc in SOURCE_CORPUS:
+        check_case(ctx, out, desc, 'source_corpus')
     rng = ctx.rng('random')
     n_random = 150 if ctx.quick else 2500
     reserve = 8 if ctx.quick else 60
@@ -180,6 +196,12 @@ def run(ctx, out):
             if ok: break
             out.count('rejected_degenerate:' + why)
         check_case(ctx, out, desc)
+        # source-kind stream: every source kind the state-space builder accepts — ac voltage sources (w = 0 and
+        # w ≠ 0), periodic voltage sources, ac current sources, with internal resistance / conductance and nominal
+        # phases in all quadrants: the unforced dynamics cannot depend on what a source is driven with
+        if rng.random() < (0.5 if ctx.quick else 1.0):
+            check_case(ctx, out, gs.with_source_kinds(rng, desc, lossy=True), 'source_kinds')
+            out.count('source_kind_cases')
         # unit-scale stream: the same circuit in realistic SI units
         if rng.random() < (0.3 if ctx.quick else 1.0):
             gs.run_sequence(out, EXTRA_CANON, [desc, gs.si_desc(rng, desc, exact=True), gs.si_desc(rng, desc, exact=False)],
